@@ -50,3 +50,10 @@ META["C10"] = dict(
           "compared with an independent codec; random sub-rectangles check store locality bit by bit; accessor images are compared "
           "with direct images and every callback address is range-checked."),
     note="Trusted: harness/img.hpp codec. ASan variant re-runs the random part.")
+META["C01"] = dict(
+    technique="property-based testing (rapidcheck): generated one-row composites vs. independent exact-integer and long-double reference models, run under three implementation chains",
+    design_ref="§4 C01",
+    text=("Hundreds of thousands (quick) to millions (thorough) of generated scenes x up to 67 pixels each, every affected pixel "
+          "compared with a reference model chosen by pipeline class; the default chain, the chain without SIMD and the pure general "
+          "chain are each checked against the model."),
+    note="Trusted: harness/ref_combine.hpp and harness/img.hpp. Found and fixed: S1.")
